@@ -23,7 +23,8 @@ Tie (correspondence, every run, against the library rebuilt from the repository'
      dropped: strict 1e-9), and as the library computes it with the documented truncation allowed for (2e-8 per possible
      term / |w_n|; which terms fall below 1e-8 depends on the eigenbasis inside degenerate levels, hence on the order
      of the basis states -- measured: up to 2e-8).  This covers the part of C18 that is only partially formalised
-     (sem_permute_monomial_partial).
+     (sem_permute_monomial_partial, sem_permute_poly_partial: conjugation by the signed basis permutation, for products of
+     adjacent transpositions; the step to spectra and observables is not formalised).
 """
 import itertools
 import json
